@@ -9,7 +9,9 @@ import (
 	"net/http"
 	"net/http/httptest"
 	"net/url"
+	"os"
 	"runtime/debug"
+	"sort"
 	"strings"
 	"testing"
 	"time"
@@ -359,6 +361,70 @@ func driveC19(t *testing.T, out *vEmitter) {
 	_ = rand.Int
 	vC19LoggingFormats(t, out)
 	vC19OptionSpellings(t, out)
+	vC19UpstreamOptions(t, out)
+}
+
+// vC19UpstreamOptions: the real upstream handlers (not the recording stand-in) under every per-upstream option that
+// validation accepts - proxy-websockets on / off / unset, pass-host-header, flush interval, timeout, TLS verification,
+// static, file - served plain requests, websocket and other upgrade requests, odd methods and a request for a missing
+// file, by an authenticated session and through a skip-auth route: none of them panics.
+func vC19UpstreamOptions(t *testing.T, out *vEmitter) {
+	backend := httptest.NewServer(http.HandlerFunc(func(rw http.ResponseWriter, r *http.Request) { rw.WriteHeader(204) }))
+	defer backend.Close()
+	dir := vTmp()
+	_ = os.WriteFile(dir+"/c19-file.txt", []byte("x"), 0o644)
+	yes, no := true, false
+	code := 299
+	fl := options.Duration(50 * time.Millisecond)
+	to := options.Duration(2 * time.Second)
+	ups := map[string]options.Upstream{
+		"ws-unset":     {ID: "u", Path: "/", URI: backend.URL},
+		"ws-on":        {ID: "u", Path: "/", URI: backend.URL, ProxyWebSockets: &yes},
+		"ws-off":       {ID: "u", Path: "/", URI: backend.URL, ProxyWebSockets: &no},
+		"ws-off-host":  {ID: "u", Path: "/", URI: backend.URL, ProxyWebSockets: &no, PassHostHeader: &no},
+		"host-off":     {ID: "u", Path: "/", URI: backend.URL, PassHostHeader: &no, FlushInterval: &fl, Timeout: &to, InsecureSkipTLSVerify: true},
+		"rewrite-ws":   {ID: "u", Path: "^/(.*)$", RewriteTarget: "/r/$1", URI: backend.URL, ProxyWebSockets: &no},
+		"static":       {ID: "u", Path: "/", Static: true, StaticCode: &code},
+		"static-plain": {ID: "u", Path: "/", Static: true},
+		"file":         {ID: "u", Path: "/", URI: "file://" + dir},
+		"unreachable":  {ID: "u", Path: "/", URI: "http://127.0.0.1:1", ProxyWebSockets: &no},
+	}
+	var names []string
+	for n := range ups {
+		names = append(names, n)
+	}
+	sort.Strings(names)
+	for _, n := range names {
+		n := n
+		e := vTryNewEnvNoFatal(t, vEnvCfg{oidc: true, keepUpstream: true, mod: func(o *options.Options) {
+			o.UpstreamServers = options.UpstreamConfig{Upstreams: []options.Upstream{ups[n]}}
+			o.SkipAuthRoutes = []string{"^/public"}
+		}})
+		if e == nil {
+			out.Stat("c19_upstream_config_refused", 1)
+			continue
+		}
+		b := e.newBrowser("https://app.example.com")
+		b.seedSession("user@example.com", time.Minute, 20)
+		for _, target := range []string{"/page", "/public/x", "/c19-file.txt", "/missing.txt", "/a%2Fb?x=1;y"} {
+			for _, hs := range [][][2]string{nil, {{"Connection", "upgrade"}, {"Upgrade", "websocket"}}, {{"Connection", "Upgrade"}, {"Upgrade", "websocket"}, {"Sec-WebSocket-Key", "x"}},
+				{{"Connection", "keep-alive, Upgrade"}, {"Upgrade", "websocket"}}, {{"Connection", "upgrade"}, {"Upgrade", "h2c"}}, {{"Upgrade", "websocket"}}, {{"Connection", "upgrade"}}} {
+				for _, method := range []string{"GET", "POST", "HEAD", "OPTIONS"} {
+					h := append([][2]string{{"Cookie", b.cookieHeader("/")}}, hs...)
+					req, err := vRawRequest(vBuildRaw(method, target, "app.example.com", h, ""))
+					if err != nil {
+						continue
+					}
+					res := e.serve(req)
+					out.Stat("c19_upstream_option_requests", 1)
+					if res.Panic != nil {
+						out.Violation("upstream-option/"+n+"/panic", "a request served by a configured upstream panicked",
+							map[string]interface{}{"upstream": n, "method": method, "target": target, "headers": hs, "panic": fmt.Sprint(res.Panic)})
+					}
+				}
+			}
+		}
+	}
 }
 
 // vC19OptionSpellings: options with an enumerated or structured value, in the spellings operators and environment files
